@@ -25,11 +25,16 @@ TRUSTED = ['Lean 4.33.0 kernel; axioms ⊆ {propext, Classical.choice, Quot.soun
            'harness/c02.py generators, snapshot and canonicalisation code, hex line protocol',
            'C03.Model (capability decision) and C16.Model (database files) — each tied to /repo by its own check',
            'parameter hash = utils.saltHash (injective, line-safe stand-in in the driver)']
-RULE = ('histories of 10–60 commands from four non-owner hostmasks (unregistered, registered, #chan op, admin) over a hostile '
+RULE = ('histories of 10–60 events: commands from four non-owner hostmasks (unregistered, registered, #chan op, admin; a fifth, '
+        'too wild to be stored, only registers) sent privately or, one in four, in a channel addressed by nick, over a hostile '
         'argument vocabulary (quoted escapes for CR/LF/TAB, blanks around words, owner in every spelling, anti and double-anti '
-        'capabilities, channel forms, wildcard hostmasks), with flush+reload points; after every step the whole state is compared '
-        'with the model and the property statement is evaluated on the implementation. non-trivial = the step changed the state '
-        'or was a reload; distinct = distinct (history prefix) input.')
+        'capabilities, channel forms, wildcard hostmasks that overlap without matching), interleaved with flush+reload, reloads '
+        'that read the files as they are (SIGHUP), world.flush, upkeep with supybot.flush on/off; before every reload the '
+        'capability orders of the real files are handed to the model, which accepts them only as permutations of what it saved. '
+        'After every step the whole state is compared with the model and the property statement (no new owner, growth only by '
+        'an entitled sender who passed the command gate, nothing gained at reload points) is evaluated on the implementation. '
+        'non-trivial = the step changed the state, was sent in a channel, or was a reload/flush event; distinct = distinct '
+        '(history prefix) input.')
 
 OWNER = 'root!r@owner.host'
 ACTORS = ['eve!e@evil.host', 'bob!b@bob.host', 'opp!o@op.host', 'adm!a@admin.host']
